@@ -12,7 +12,7 @@ import vlib, sysh, codec
 ASSUMPTIONS = [
     "a null char const* has no defined call-site formatting (fmt throws): expected text is the empty string, as the repository's StringLoggingTest expects ('csn []')",
     "an unterminated char[N] has no defined call-site formatting (reads past the array): expected text is its first N bytes, as StringLoggingTest expects",
-    "the iteration order of unordered containers is unspecified and not preserved by the copy the backend rebuilds: the message must equal the call-site formatting of the same elements in SOME order (the repository's unordered tests only log single-element containers)",
+    "unordered containers are judged STRICTLY: the message must equal the call-site formatting in the source container's own iteration order (read from the argument itself at the top level, from an identically constructed container when nested; libstdc++ copies preserve the order); a message that equals the call-site formatting for another element order is rejected under the canonical signature text:unordered-container-element-order, any other difference keeps its normal signature; two-element unordered_multimaps get distinct keys so that the source order is identifiable",
     "a direct-format type is by definition logged as the string fmtquill::format(\"{}\", obj) produced at the call site; nested in a container it is therefore rendered as a (quoted) string element, which is what UserDefinedTypeLoggingDirectFormatTest expects: the oracle replaces each direct-format leaf by that string",
     "StringRef is the documented opt-out of the deep copy: its target is neither mutated nor destroyed before the backend ran",
     "sanitisation: BackendOptions documents that check_printable_char applies only when an argument is a string; for statements without a string/C-string/string_view argument both the sanitised and the unsanitised call-site text are accepted",
@@ -39,7 +39,7 @@ def trace_lines(results, consts):
                 lines.append({"op": "stmt", "t": r["t"], "reserved": r["reserved"], "hdr": r["hdr"],
                               "dynb": consts["level"] if s["dyn"] else 0, "tp": r["tp"][:3],
                               "got": got if got is not None else "", "gotnull": got is None,
-                              "exp": r["exp"], "raw": r["raw"], "hasstr": bool(r["hasstr"]), "orafail": bool(r["orafail"]),
+                              "exp": r["exp"], "raw": r["raw"], "alt": r.get("alt", []), "hasstr": bool(r["hasstr"]), "orafail": bool(r["orafail"]),
                               "pred": s["pred"], "cb": r["cb"], "ca": r["ca"], "clears": s["clears"], "npush": s["npush"],
                               "case": r["case"], "si": r["si"], "rep": r["rep"]})
                 index.append((k, r["case"], r["si"], r["rep"]))
@@ -58,6 +58,9 @@ def sig_of(case, si, line, consts):
     if line["op"] == "stmt":
         textok = line["orafail"] or (not line["gotnull"] and (line["got"] in line["exp"] or (not line["hasstr"] and line["got"] in line["raw"])))
         if not textok:
+            if not line["gotnull"] and line["got"] in line.get("alt", []):
+                # the same elements, rendered in another order than the source container iterates them
+                return "text:unordered-container-element-order"
             what = "text-after-mutation" if (s["mut"] and line["rep"] == 1) else "text"
     return f"{what}:{'+'.join(s['types'])}"
 
@@ -74,47 +77,73 @@ def _cut_case(lines, index, at):
     return a, b
 
 
-def validate(ck, results, consts, lines, index, depth=0):
-    rt = sysh.validate_trace("TraceCodec", "TraceCodec.cfg", lines, timeout=900)
+def _rejected(ck, lines, label):
+    """one TLC pass over the whole trace; returns the 0-based indexes of the lines the contract rejects"""
+    if not lines:
+        return []
+    rt = sysh.validate_trace("TraceCodec", "TraceCodecAll.cfg", lines, timeout=1200)
     if rt.error:
         raise vlib.Infra(rt.error)
-    ck.add_tlc(rt, "TraceCodec")
-    nstmt = lambda ls: sum(1 for x in ls if x["op"] == "stmt")
-    if rt.violated is None:
-        if rt.distinct != len(lines) + 1:
-            raise vlib.Infra(f"trace not fully consumed: {rt.distinct} states for {len(lines)} lines")
-        ck.traces_validated += nstmt(lines)
+    ck.add_tlc(rt, label)
+    if rt.distinct != len(lines) + 1:
+        raise vlib.Infra(f"trace not fully consumed: {rt.distinct} states for {len(lines)} lines")
+    rej = vlib.behaviours(rt, tag="REJ")
+    if len(rej) != 1:
+        raise vlib.Infra("trace spec did not report its rejections")
+    return [x - 1 for x in rej[0]]
+
+
+def validate(ck, results, consts, lines, index):
+    rej = _rejected(ck, lines, "TraceCodec")
+    bad_cases = {}
+    for at in rej:
+        k, cid = index[at][0], index[at][1]
+        bad_cases.setdefault((k, cid), []).append(at)
+    badset = {(index[i][0], index[i][1]) for i in rej}
+    ck.traces_validated += sum(1 for x, ix in zip(lines, index) if x["op"] == "stmt" and (ix[0], ix[1]) not in badset)
+    if not bad_cases:
         return
-    at = rt.trace[-1]["l"] - 2            # 0-based index of the rejected line
-    k, cid, si, rep = index[at]
-    ck.traces_validated += nstmt(lines[:at])
-    by_k = {r[0]: r for r in results}
-    _, exe, cs, _, _ = by_k[k]
-    case = next(c for c in cs if c["id"] == cid)
-    # the rejection must repeat when the same sequence of cases (the unit up to and including this case: the thread's
+    # every rejection must repeat when the same sequence of cases (the unit up to and including the case: the thread's
     # size cache carries state from one statement to the next) is executed again in a new process
-    only = codec.prefix_of(cs, cid)
-    rc2, recs2 = codec.run_bin(exe, only=only)
-    l2, i2 = trace_lines([(k, exe, cs, [], recs2)], consts)
-    keep = [j for j, ix in enumerate(i2) if ix[1] in (None, cid)]
-    l2, i2 = [l2[j] for j in keep], [i2[j] for j in keep]
-    r2 = sysh.validate_trace("TraceCodec", "TraceCodec.cfg", l2)
-    if r2.error:
-        raise vlib.Infra(r2.error)
-    if r2.violated:
-        bad = l2[r2.trace[-1]["l"] - 2]
-        sg = sig_of(case, i2[r2.trace[-1]["l"] - 2][2], bad, consts)
-        text = (f"case {cid} ({case['origin']}) statement types {case['stmts'][bad.get('si') or 0]['ctypes']} fmt "
-                f"{case['stmts'][bad.get('si') or 0]['fmt']!r}: observed {json.dumps({x: bad[x] for x in bad if x in ('reserved', 'hdr', 'dynb', 'tp', 'consumed', 'got', 'exp')})[:900]}")
+    by_k = {r[0]: r for r in results}
+    jobs = sorted(bad_cases)
+
+    def rerun(key):
+        k, cid = key
+        _, exe, cs, _, _ = by_k[k]
+        only = codec.prefix_of(cs, cid)
+        rc2, recs2 = codec.run_bin(exe, only=only)
+        l2, i2 = trace_lines([(k, exe, cs, [], recs2)], consts)
+        keep = [j for j, ix in enumerate(i2) if ix[1] in (None, cid)]
+        return only, [l2[j] for j in keep], [i2[j] for j in keep]
+    from concurrent.futures import ThreadPoolExecutor
+    with ThreadPoolExecutor(max_workers=vlib.NCPU) as ex:
+        reruns = list(ex.map(rerun, jobs))
+    all2, idx2 = [], []
+    for (only, l2, i2) in reruns:
+        all2 += l2
+        idx2 += i2
+    rej2 = _rejected(ck, all2, "TraceCodec(confirm)")
+    confirmed = {}
+    for at in rej2:
+        confirmed.setdefault((idx2[at][0], idx2[at][1]), at)
+    for key, (only, l2, i2) in zip(jobs, reruns):
+        k, cid = key
+        _, exe, cs, _, _ = by_k[k]
+        case = next(c for c in cs if c["id"] == cid)
+        if key not in confirmed:
+            ck.drifted(f"rejection of case {cid} did not repeat when its prefix of cases was executed again")
+            continue
+        bad = all2[confirmed[key]]
+        si = idx2[confirmed[key]][2]
+        sg = sig_of(case, si, bad, consts)
+        st = case["stmts"][si if si is not None else -1]
+        text = (f"case {cid} ({case['origin']}) statement types {st['ctypes']} fmt {st['fmt']!r}: observed "
+                f"{json.dumps({x: bad[x] for x in bad if x in ('reserved', 'hdr', 'dynb', 'tp', 'consumed', 'got', 'exp')})[:900]}")
         ck.violation(sg, text, {"unit": f"{vlib.BUILD}/gen_codec/{_tu_name(ck, k)}", "case": cid, "only": only, "cpp": case["cpp"],
-                                "trace": l2, "rejected_line": r2.trace[-1]["l"] - 1, "exe": str(exe)})
-    else:
-        ck.drifted(f"rejection of case {cid} did not repeat in isolation")
-    if depth < 40:
-        a, b = _cut_case(lines, index, at)
-        rest, ridx = [{"op": "reset"}] + lines[b:], [(k, None, None, None)] + index[b:]
-        if len(rest) > 1:
-            validate(ck, results, consts, rest, ridx, depth + 1)
+                                "trace": l2, "exe": str(exe)})
+        ck.extra.setdefault("rejections_by_signature", {})
+        ck.extra["rejections_by_signature"][sg] = ck.extra["rejections_by_signature"].get(sg, 0) + 1
 
 
 def _tu_name(ck, k):
